@@ -289,6 +289,40 @@ func propGeom(c Case) error {
 		case "srid":
 			geom.SetSRID(t, t.SRID()+1+m.I)
 		case "transform":
+			if m.I%3 == 1 {
+				// in lock-step with a clone: while the transform of this value is at its first
+				// coordinate, a clone of it is transformed from first to last by another
+				// function (a callback that looks something up in a reprojected copy does this);
+				// afterwards each holds what its own function wrote, all of it
+				cl := clone(t)
+				first := true
+				orig := append([]float64(nil), t.FlatCoords()...)
+				geom.TransformInPlace(t, func(co geom.Coord) {
+					if first {
+						first = false
+						geom.TransformInPlace(cl, func(cc geom.Coord) {
+							for i := range cc {
+								cc[i] = -float64(m.I + i + 1)
+							}
+						})
+					}
+					for i := range co {
+						co[i] = 2*co[i] + 1 // reads what it is given
+					}
+				})
+				s := t.Stride()
+				for i, v := range t.FlatCoords() {
+					if want := 2*orig[i] + 1; math.Float64bits(v) != math.Float64bits(want) {
+						return fmt.Errorf("step %d: transform in place (v -> 2v+1) while a clone was transformed inside its first callback: ordinate %d of the value is %v, want %v (was %v)", step, i, v, want, orig[i])
+					}
+				}
+				for i, v := range cl.FlatCoords() {
+					if v != -float64(m.I+i%s+1) {
+						return fmt.Errorf("step %d: a clone transformed in place inside the first callback of its source's transform: ordinate %d of the clone is %v, want %v", step, i, v, -float64(m.I+i%s+1))
+					}
+				}
+				break
+			}
 			geom.TransformInPlace(t, func(co geom.Coord) {
 				for i := range co {
 					co[i] = float64(m.I + i)
